@@ -59,8 +59,13 @@ func init() {
 		api := c.Bool()
 		warm := c.Choose(3) // 0: fresh parser; 1, 2: the same parser has parsed [add --force deep] / [rm] before
 		maxDepth := 4
-		if c.Thorough {
+		if c.Thorough && (pol.name == "fail" || pol.name == "ignore") {
 			maxDepth = 5
+		} else if c.Thorough {
+			maxDepth = 4
+		}
+		if c.Thorough && (warm != 0 || api) && maxDepth == 4 {
+			maxDepth = 5 // compensates the decrement below: these families stay at 4 in the thorough tier
 		}
 		if warm != 0 || api || (pol.handler != ref.NoHandler && pol.handler != ref.HandlerKeep) {
 			maxDepth-- // the reused-parser variants, the API build and the handler variants that rewrite the arguments go one unit less deep
@@ -179,7 +184,7 @@ func init() {
 		ShardDepth: 5,
 		Body:       body,
 		Rule: "declaration with case-sensitive, namespaced and non-ASCII names and options that exist only in sibling / deeper commands; 7 policies (fail, fail+PassDoubleDash, IgnoreUnknown, handler returning the arguments unchanged / dropping the next / " +
-			"inserting a token / returning an error) x {tags, API} x {fresh parser, parser that already parsed a vector selecting add/deep, selecting rm} x every sequence of <= 4 (quick) / <= 5 (thorough) units over 12 valid tokens and 22 near misses (case flips, names containing % or a NUL character, an unknown -<digits> token while an int positional is pending, prefixes, one character dropped/added/changed, " +
+			"inserting a token / returning an error) x {tags, API} x {fresh parser, parser that already parsed a vector selecting add/deep, selecting rm} x every sequence of <= 4 units (3 for the API build, the reused-parser and the argument-rewriting handler variants; thorough: one more for the fail and IgnoreUnknown policies, 4 for the rest) over 12 valid tokens and 22 near misses (case flips, names containing % or a NUL character, an unknown -<digits> token while an int positional is pending, prefixes, one character dropped/added/changed, " +
 			"namespace missing/doubled/case-changed, unknown character at either end of a cluster, inline arguments, a neighbouring non-ASCII letter); oracle = CLM scope tables and handler call log",
 		Assumptions:  []string{"the name passed to the handler for a multi-character cluster is not asserted", "values of flags that precede an unknown character inside one cluster are not asserted"},
 		RequiredHits: []string{"unknown-rejected", "handler-called", "continued-after-unknown", "after-earlier-parse"},
